@@ -10,6 +10,7 @@ from engine.model import src, stmt_key, dotted, AnalysisError
 from engine.util import own_nodes, calls_with_nodes, where, with_exprs
 
 RULES = {
+    "R-02.10": "a malformed RDATA is a format error whatever helper noticed it: the per-type reader runs entirely inside `with ExceptionWrapper(FormError)` and the wrapper converts every foreign exception, DNS exceptions of other families included (rule of C04 R-04.3, run here directly because C04 adopts C02 rules)",
     "R-02.9": "a field of maximal legal size survives: the constructor validators that every decoder runs accept exactly the interval the wire format allows (C05 R-05.5 adopted: e.g. _as_bytes refuses len > max, not >=)",
     "R-02.8": "names embedded in records decode by the name codec's own bounds: a 63-octet label is legal and pointers go strictly backwards (C01 R-01.3 adopted) - every name-bearing type rests on it",
     "R-02.7": "a wire reader uses everything it reads: every local bound from a parser read (parser.get_*, struct.unpack) in a from_wire_parser / from_value is read afterwards (handed to the constructor, or used as a length/selector); a field read and then dropped decodes to the constructor's default",
@@ -334,6 +335,8 @@ def run(model, rep, tier):
                       f"`{b_}` is read from the wire (`{src(a)[:50]}`) and never used: the decoded object gets the constructor's default for that field, so a value whose field is non-default "
                       "does not survive encode-then-decode", stmt=f"wire-value-used {b_}")
     rep.floor("R-02.7", n_read, 120)
+    from rules.c04 import check_wrappers
+    check_wrappers(model, rep, "R-02.10")
     rep.share(model, "C05", {"R-05.5"}, "R-02.9", "every from_wire_parser ends in cls(...), whose __init__ validates each field with _as_bytes/_as_uintN")
     rep.share(model, "C01", {"R-01.3"}, "R-02.8", "parser.get_name() decodes every embedded domain name through dns.name.from_wire_parser")
     rep.meta["explanation"] = (
